@@ -208,6 +208,19 @@ def extract(pkg_text, top_text):
                     fields.append((r["map"][0] + ".idx", fb[0], rule[0]))
                     fields.append((r["map"][0] + ".start_addr", fb[1], rule[1]))
                     fields.append((r["map"][0] + ".end_addr", fb[2], rule[2]))
+    # XY: the three fields of every coordinate identity (interfaces, routers, address-map destinations)
+    xyb = n.get("xy_bits")
+    if xyb is not None:
+        def coord_fields(what, v):
+            if isinstance(v, list) and len(v) == 3:
+                for nm, w, val in zip(("x", "y", "port_id"), xyb, v):
+                    fields.append((f"{what}.{nm}", w, val))
+        for x in n["nis"]:
+            coord_fields(x["name"] + ".id", x["id"])
+        for r in n["rts"]:
+            coord_fields(r["name"] + ".id", r["id"])
+        for r in n["sam"]:
+            coord_fields("Sam.idx", r[0])
     f["fields"] = fields + enum_fields
     f["sam_lits"] = [(r[3], r[1], r[4], n["aw"]) for r in n["sam"]] + [(r[5], r[2], r[6], n["aw"]) for r in n["sam"]]
     f["route_bits"] = n["route_bits"]
